@@ -23,9 +23,9 @@ SPEC = {
     "modules": ["HC.Props.C01"],
     "extracted": ["Guards", "Consts", "H11Tables", "ReqGlue"],
     "technique": "Lean 4: scope construction law (target split, method, headers), per-event forwarding lemmas and a transducer theorem for runs of body events (concatenation / one final message / segmentation independence at the glue), filter_pseudo_headers spec, one instance per request (with C06 serial) — tied by direct drive of H11Protocol with h11 taps and by end-to-end runs on both workers over every two-way split",
-    "level_text": "Proved in Lean: the HTTP/1 scope is exactly (upper-cased method, target split at the first '?' with nothing lost, version, header list as h11 reports it or raw when configured); a WebSocket scope is chosen iff GET + Upgrade: websocket + Connection upgrade token; on HTTP/2 the header list is host (from :authority, else host) followed by the non-pseudo, non-host headers in order; every Data / EndOfMessage event of the parser is forwarded to the live instance as exactly one http.request message carrying those bytes; for every chunking of the body the messages concatenate to the body with exactly one more_body=False message iff the parser reported completion, independently of how the parser cut the bytes; handling a Request spawns exactly one instance, and (C06) only when none is live.  That the parsers' events carry the client's bytes for every segmentation is library behaviour: sampled end-to-end on both workers (HTTP/1.0, 1.1, 2; content-length, chunked, DATA frames; every two-way split of requests <= 300 bytes, random k-way and one-byte-per-read splits; eager, lazy and slow consumers with more chunks than the bounded app queue holds).",
+    "level_text": "Proved in Lean: the HTTP/1 scope is exactly (upper-cased method, target split at the first '?' with nothing lost, version, header list as h11 reports it or raw when configured); a WebSocket scope is chosen iff GET + Upgrade: websocket + Connection upgrade token; on HTTP/2 the header list is host (from :authority, else host) followed by the non-pseudo, non-host headers in order; every Data / EndOfMessage event of the parser is forwarded to the live instance as exactly one http.request message carrying those bytes; for every chunking of the body the messages concatenate to the body with exactly one more_body=False message iff the parser reported completion, independently of how the parser cut the bytes; handling a Request spawns exactly one instance, and (C06) only when none is live; the server-name decision (host-header test extracted from utils.valid_server_name) is the same for the raw and the lower-cased header list, so configuring raw headers never changes whether an instance is started; on HTTP/2 every DataReceived acknowledges exactly its flow-controlled length whether or not its stream still exists (call counts extracted from _handle_events), so the connection receive window is conserved over any sequence of DATA events.  That the parsers' events carry the client's bytes for every segmentation is library behaviour: sampled end-to-end on both workers (HTTP/1.0, 1.1, 2; content-length, chunked, DATA frames; every two-way split of requests <= 300 bytes, random k-way and one-byte-per-read splits; eager, lazy and slow consumers with more chunks than the bounded app queue holds; raw headers on/off x server names set/unset with the client's own spelling of Host; HTTP/2 connections with several requests, applications answering before or without reading the body and late uploads).",
     "level_note": "Trusted: Lean kernel; models HC/Proto/H11.lean, HC/Stream/Http.lean, HC/Pure/Utils.lean (differential runs); h11 / h2 / hpack parsing and the asyncio Queue / trio memory channel FIFO semantics are library behaviour (sampled); urllib.parse.unquote is compared with an independent percent-decoder written in the harness; the HTTP/2 protocol glue is covered end-to-end only (no Lean model of H2Protocol's receive side beyond filter_pseudo_headers).",
-    "rule": "request kinds x framing x body-size class x split class x consumer class x protocol x worker; every two-way split of sessions <= 300 bytes is enumerated (exhaustive for those sessions); distinct = (protocol, framing, pipeline length, body-size class, split class, consumer class); non-trivial = non-empty body or a pipeline",
+    "rule": "request kinds x framing x body-size class x split class x consumer class x protocol x worker x configuration (raw headers, server names); HTTP/2 connection sessions: mode x consumer x upload timing x body-size class; every two-way split of sessions <= 300 bytes is enumerated (exhaustive for those sessions); distinct = (protocol, framing, pipeline length, body-size class, split class, consumer class); non-trivial = non-empty body or a pipeline",
     "trusted": ["h11 0.16 / h2 4.4.1 parsers", "asyncio.Queue and trio memory channels"],
     "partial": ["methods are compared after ASCII upper-casing; non-UTF-8 percent-escapes are compared through Python's replacement policy"],
     "assumptions": [],
